@@ -166,6 +166,10 @@ func (c *Ctx) a3Loop(l *mapLoop) []a3Finding {
 				}
 			}
 		}
+		if why := minScanRole(l, ph); why != "" {
+			out = append(out, a3Finding{"", "loop-carried " + name, why, ph, "ok"})
+			continue
+		}
 		t := ph.Type().Underlying()
 		switch {
 		case isErrorType(ph.Type()):
@@ -910,4 +914,216 @@ func dependsOn(v ssa.Value, target ssa.Value) bool {
 		return false
 	}
 	return walk(v, 0)
+}
+
+// minScanRole recognises the minimum / maximum scan over the keys (or values) of the ranged map:
+//
+//	best, first := zero, true
+//	for k := range m { if first || k < best { best, first = k, false } }
+//
+// (with or without the first-flag). The result is the least element whatever the iteration order. Checked: every value
+// that flows back into best is best itself or the range element; every block in which the element is chosen is entered
+// only over the true edge of a test of the first-flag or of an order comparison between the element and best, all
+// comparisons pointing the same way; the flag starts with one constant, only ever takes the other, and takes it
+// wherever the element is chosen. Returns a description for best and for the flag, "" otherwise.
+func minScanRole(l *mapLoop, ph *ssa.Phi) string {
+	hdr := l.header
+	var bests []*ssa.Phi
+	for _, in := range hdr.Instrs {
+		p, ok := in.(*ssa.Phi)
+		if !ok {
+			break
+		}
+		if bt, ok := p.Type().Underlying().(*types.Basic); ok && bt.Info()&(types.IsString|types.IsInteger|types.IsFloat) != 0 {
+			bests = append(bests, p)
+		}
+	}
+	for _, best := range bests {
+		flag, ok := minScanShape(l, best)
+		if !ok {
+			continue
+		}
+		if best == ph {
+			return "minimum / maximum scan over the ranged map: the result does not depend on the iteration order"
+		}
+		if flag != nil && flag == ph {
+			return "first-element flag of a minimum / maximum scan (" + best.Name() + ")"
+		}
+	}
+	return ""
+}
+
+func minScanShape(l *mapLoop, best *ssa.Phi) (*ssa.Phi, bool) {
+	isElem := func(v ssa.Value) bool { return v != nil && (v == l.key || v == l.val) }
+	// closure of values flowing back into best, and the blocks over whose edges the element is chosen
+	type choice struct {
+		phi *ssa.Phi
+		idx int
+	}
+	var choices []choice
+	var elem ssa.Value
+	seen := map[*ssa.Phi]bool{}
+	okVals := true
+	var walk func(p *ssa.Phi, fromHeader bool)
+	walk = func(p *ssa.Phi, fromHeader bool) {
+		if seen[p] {
+			return
+		}
+		seen[p] = true
+		for i, e := range p.Edges {
+			pred := p.Block().Preds[i]
+			if fromHeader && !l.body[pred] {
+				continue // entry edge: the initial value
+			}
+			switch {
+			case e == ssa.Value(best):
+			case isElem(e):
+				if elem != nil && elem != e {
+					okVals = false
+				}
+				elem = e
+				choices = append(choices, choice{p, i})
+			default:
+				if q, ok := e.(*ssa.Phi); ok && l.body[q.Block()] && q != best {
+					walk(q, false)
+				} else {
+					okVals = false
+				}
+			}
+		}
+	}
+	walk(best, true)
+	if !okVals || len(choices) == 0 || elem == nil {
+		return nil, false
+	}
+	// the flag: a bool header phi that starts true and otherwise is itself or false
+	var flag *ssa.Phi
+	flagInit := ""
+	for _, in := range l.header.Instrs {
+		p, ok := in.(*ssa.Phi)
+		if !ok {
+			break
+		}
+		if !isBool(p.Type().Underlying()) {
+			continue
+		}
+		okF := true
+		init := ""
+		for i, e := range p.Edges {
+			pred := p.Block().Preds[i]
+			if !l.body[pred] {
+				k, isK := e.(*ssa.Const)
+				if !isK || k.Value == nil {
+					okF = false
+				} else {
+					init = k.Value.String()
+				}
+			}
+		}
+		other := map[string]string{"true": "false", "false": "true"}[init]
+		if other == "" {
+			continue
+		}
+		for i, e := range p.Edges {
+			if l.body[p.Block().Preds[i]] && !flagBackOK(l, p, e, other, map[ssa.Value]bool{}) {
+				okF = false
+			}
+		}
+		if okF {
+			flag, flagInit = p, init
+		}
+	}
+	// every choice block is entered over true edges of the flag or of one-directional comparisons elem <> best
+	dir := ""
+	for _, ch := range choices {
+		blk := ch.phi.Block().Preds[ch.idx]
+		// walk up plain jumps to the block that was branched into
+		for len(blk.Preds) == 1 && len(blk.Instrs) == 1 {
+			if _, isJ := blk.Instrs[0].(*ssa.Jump); !isJ {
+				break
+			}
+			blk = blk.Preds[0]
+			break
+		}
+		if len(blk.Preds) == 0 {
+			return nil, false
+		}
+		for _, pb := range blk.Preds {
+			ifi, ok := pb.Instrs[len(pb.Instrs)-1].(*ssa.If)
+			if !ok {
+				return nil, false
+			}
+			if flag != nil && ifi.Cond == ssa.Value(flag) {
+				// entered while the flag still has its initial value
+				if (pb.Succs[0] == blk) != (flagInit == "true") {
+					return nil, false
+				}
+				continue
+			}
+			if pb.Succs[0] != blk {
+				return nil, false
+			}
+			bo, ok := ifi.Cond.(*ssa.BinOp)
+			if !ok {
+				return nil, false
+			}
+			var d string
+			switch {
+			case bo.X == elem && bo.Y == ssa.Value(best) && (bo.Op == token.LSS || bo.Op == token.LEQ),
+				bo.Y == elem && bo.X == ssa.Value(best) && (bo.Op == token.GTR || bo.Op == token.GEQ):
+				d = "min"
+			case bo.X == elem && bo.Y == ssa.Value(best) && (bo.Op == token.GTR || bo.Op == token.GEQ),
+				bo.Y == elem && bo.X == ssa.Value(best) && (bo.Op == token.LSS || bo.Op == token.LEQ):
+				d = "max"
+			default:
+				return nil, false
+			}
+			if dir != "" && dir != d {
+				return nil, false
+			}
+			dir = d
+		}
+		// where the element is chosen the flag becomes false
+		if flag != nil {
+			cleared := false
+			for _, in := range ch.phi.Block().Instrs {
+				q, ok := in.(*ssa.Phi)
+				if !ok {
+					break
+				}
+				if k, isK := q.Edges[ch.idx].(*ssa.Const); isK && isBool(q.Type().Underlying()) && k.Value != nil && k.Value.String() != flagInit {
+					cleared = true
+				}
+			}
+			if !cleared {
+				return nil, false
+			}
+		}
+	}
+	if dir == "" && flag == nil {
+		return nil, false
+	}
+	return flag, true
+}
+
+func flagBackOK(l *mapLoop, flag *ssa.Phi, v ssa.Value, final string, seen map[ssa.Value]bool) bool {
+	if seen[v] {
+		return true
+	}
+	seen[v] = true
+	if v == ssa.Value(flag) {
+		return true
+	}
+	if k, ok := v.(*ssa.Const); ok {
+		return k.Value != nil && k.Value.String() == final
+	}
+	if q, ok := v.(*ssa.Phi); ok && l.body[q.Block()] {
+		for _, e := range q.Edges {
+			if !flagBackOK(l, flag, e, final, seen) {
+				return false
+			}
+		}
+		return true
+	}
+	return false
 }
